@@ -85,6 +85,8 @@ class Module:
         # Set at the end of elaboration.
         # For most modules this will be `self`.
         self._elaborated: Optional[Module] = None
+        # The error raised by an elaboration pass which failed on this module, if any.
+        self._elab_error: Optional[Exception] = None
 
         # IOs as captured before bundle-flattening.
         # Bundle-valued ports are flattened into `ports` and removed from `bundles`, but need to be kept *somewhere* afterwards.
